@@ -108,7 +108,14 @@ def rule_c06_shapley(prog: Program, col: Collector) -> None:
     wref = prog.func("shapley._shapley_value_for_player")
     wft = fterms(prog, wref)
     wp = wref.positional_params()
-    single, game, coefs, nfac = (("param", x) for x in wp[:4])
+    if len(wp) == 3:
+        # the two weights travel as one record (coefficients, n!): a NamedTuple / frozen dataclass parameter read by field
+        single, game = ("param", wp[0]), ("param", wp[1])
+        coefs, nfac = ("index", ("param", wp[2]), ("const", 0)), ("index", ("param", wp[2]), ("const", 1))
+    elif len(wp) >= 4:
+        single, game, coefs, nfac = (("param", x) for x in wp[:4])
+    else:
+        raise AnalysisError("_shapley_value_for_player: parameters are not (singleton, game, coefficients, n!) or (singleton, game, weights record)")
     rets = list(wft.of_kind("return"))
     if not rets:
         raise AnalysisError("_shapley_value_for_player: no return")
@@ -247,6 +254,8 @@ def rule_c06_shapley(prog: Program, col: Collector) -> None:
             col.undecidable(ref.where(), ref.short, "does not call the shared worker exactly once")
             continue
         a = calls[0].args
+        if len(a) == 3 and a[2][0] == "tuple" and len(a[2][1]) == 2:
+            a = a[:2] + tuple(a[2][1])          # the weights record, field by field
         okc = len(a) == 4 and a[1] == gp and a[2] == ("call", ("global", P + "shapley._get_contributions"), (nplayers,), ()) \
             and factorial_arg(prog, col, a[3], ref.where(calls[0].node), ref.short) == nplayers
         col.check(okc, ref.where(calls[0].node), ref.short, "worker(singleton, game, _get_contributions(n), factorial(n)) with n = game.number_of_players",
